@@ -307,6 +307,15 @@ func c04(c *core.Ctx) {
 				}
 			}
 		}
+		// what the handler obtains through the stream is that very context: Context() of every server stream type
+		// returns the stored context field and nothing else
+		for _, nt := range p.Implementers(p.ExtType(grpcPkg, "ServerStream")) {
+			if declaredMethod(p, nt, "Context") == nil {
+				continue
+			}
+			f, ok, pos := accessorReturnsField(p, nt, "Context")
+			c.Check(ok && f == "ctx", core.NamedOf(nt)+":Context-accessor", pos, "Context() returns the stream's stored context on every path", "Context() of a server stream does not simply return the context stored at construction (the one shown above to descend from the caller's): the handler would run under another context — no cancellation, deadline or metadata")
+		}
 		// outgoing requests
 		n := 0
 		for _, fn := range p.LibFuncs("httpgrpc") {
